@@ -80,6 +80,10 @@ struct IOptimizer
     virtual int getDimension() const = 0;
     virtual VectorXd initialGuess() const = 0;
     virtual double evaluate(const VectorXd &x, VectorXd &grad, const CostProgram &prog, const EvalOpts &o) const = 0;
+    // evaluate() with a program whose running cost throws: returns true when the exception reached the caller
+    virtual bool evaluateThrows(const VectorXd &x, const CostProgram &prog, const EvalOpts &o) const = 0;
+    // checkGradients() with a program whose running cost throws: returns true when the exception reached the caller
+    virtual bool checkGradientsThrows(const VectorXd &x, const CostProgram &prog, bool threeCosts, int ws) = 0;
     virtual CheckResult checkGradients(const VectorXd &x, const CostProgram &prog, bool threeCosts, int ws, bool defaults, double eps, double tol) = 0;
     virtual std::unique_ptr<ISpline> optimalSpline() const = 0; // copy of *getOptimalSpline(), null if none
     virtual const void *optimalSplineAddr() const = 0;
